@@ -340,6 +340,7 @@ def run(ctx) -> None:
 
     C08.eqhash_agreement(ctx, ('forml.io.asset', 'forml.project'), floor=3)
     C05.gap_free(ctx)
+    C05.key_paths(ctx)
     install_guard(ctx)
     key_gate(ctx)
     package_content(ctx)
